@@ -161,6 +161,18 @@ Odd == <<
   <<Field("Mutation", "M", <<>>, <<LinkedA("setName", "", <<A("id", IntV("1")), A("name", StrV(<<110>>))>>, Name)>>), Entrypoint("Mutation", "M")>>,
   <<Field("Subscription", "S", <<>>, Id), Entrypoint("Subscription", "S")>>,
   <<Field("Pet", "feed", <<>>, Id)>>, <<Field("Pet", "refetchPet", <<>>, Id)>>, <<Field("Query", "Home", <<>>, <<Linked("me", Name)>>)>>,
+  \* an entrypoint variable passed on inside an asX refinement (to a client field / a server field; interface / union), and the control without refinement
+  <<Field("User", "CardV", <<VarDef("n", TInt)>>, <<LinkedA("pets", "", <<A("first", Var("n"))>>, Id)>>),
+    Field("Query", "HomeV", <<VarDef("id", NonNull(Named("ID"))), VarDef("k", TInt)>>, <<LinkedA("node", "", <<A("id", Var("id"))>>, <<Linked("asUser", <<ScalarA("CardV", "", <<A("n", Var("k"))>>)>>)>>)>>),
+    Entrypoint("Query", "HomeV")>>,
+  <<Field("User", "CardV", <<VarDef("n", TInt)>>, <<LinkedA("pets", "", <<A("first", Var("n"))>>, Id)>>),
+    Field("Query", "HomeV", <<VarDef("k", TInt)>>, <<LinkedA("search", "", <<A("text", StrV(<<113>>))>>, <<Linked("asUser", <<ScalarA("CardV", "", <<A("n", Var("k"))>>)>>)>>)>>),
+    Entrypoint("Query", "HomeV")>>,
+  <<Field("Query", "HomeV", <<VarDef("id", NonNull(Named("ID"))), VarDef("k", TInt)>>, <<LinkedA("node", "", <<A("id", Var("id"))>>, <<Linked("asUser", <<LinkedA("pets", "", <<A("first", Var("k"))>>, Id)>>)>>)>>),
+    Entrypoint("Query", "HomeV")>>,
+  <<Field("User", "CardV", <<VarDef("n", TInt)>>, <<LinkedA("pets", "", <<A("first", Var("n"))>>, Id)>>),
+    Field("Query", "HomeV", <<VarDef("k", TInt)>>, <<Linked("me", <<ScalarA("CardV", "", <<A("n", Var("k"))>>)>>)>>),
+    Entrypoint("Query", "HomeV")>>,
   <<Field("Pet", "UsesFeed", <<>>, <<Scalar("feed"), Scalar("refetchPet"), Scalar("__refetch")>>), Field("Query", "UF", <<>>, <<Linked("topPet", <<Scalar("UsesFeed")>>)>>), Entrypoint("Query", "UF")>>
 >>
 OddChoices == {<<>>} \cup {<<i>> : i \in DOMAIN Odd}
